@@ -123,7 +123,7 @@ CHECKS["C17"] = dict(
     design="5/C17")
 
 CHECKS["C09"] = dict(
-    text="Coq proof (23 theorems, invariants over all event histories = all loss/duplication/reordering patterns) that a tunnel node "
+    text="Coq proof (25 theorems, invariants over all event histories = all loss/duplication/reordering patterns) that a tunnel node "
          "reclaims every table entry within a bound computed from its settings: a relay route or exit socket present at time t was "
          "active within max_time_inactive + sweep + remove_tunnel_delay; an originator circuit within max(inactivity bound, creation + "
          "next_hop_timeout*(tries + hops - 1)) + delay; the sweep rules equal their documented conditions; adjacent destroys schedule "
@@ -132,14 +132,16 @@ CHECKS["C09"] = dict(
          "every run (tr_reclaim). Tied to real TunnelCommunity nodes by lockstep replay of ~600 (quick) / ~6500 (thorough) node histories "
          "from scripted teardown / abandonment / loss scenarios under virtual time; an independent oracle checks freshness, emptiness at "
          "the deadline, closed sockets, join limit and relay_early budget on the implementation. Second property file props/C09x.v "
-         "(6 theorems over the network model M09_network = all nodes + messages in flight, loss/duplication/delay free in the trace): "
+         "(12 theorems over the network model M09_network = all nodes + messages in flight, loss/duplication/delay free in the trace): "
          "path_bounded_reclaim_partial - once the circuit is closing at the originator or the path is broken at any position, every "
-         "node of an h-hop path is empty after B_path = 2*h*D + max_time_inactive + sweep + remove_tunnel_delay; tied by replaying "
-         "whole-network histories (103 quick / 324 thorough teardown scenarios) through the network model in Coq.",
+         "node of an h-hop path is empty after B_path = 2*h*D + max_time_inactive + sweep + remove_tunnel_delay; "
+         "path_bounded_reclaim_building_partial - half-built and abandoned circuits (any loss/duplication of handshake messages, any "
+         "retries, originator giving up or isolated) are reclaimed everywhere within B_build from creation; tied by replaying "
+         "whole-network histories (336 quick / 899 thorough scenarios) through the network model in Coq.",
     note="Trusted: Coq kernel; tr_reclaim/tr_expr; harness (instrumentation, state abstraction, timed lossy network, fake transports); "
          "asyncio under the virtual clock ('timely' assumption, evaluated on every replayed history). The path-level theorem is partial: "
-         "it assumes the handshake is over (no half-built circuit), distinct nodes/ids on the path, nodes that keep being served, and a "
-         "datagram life-time bound D that is not a py-ipv8 setting; its hypotheses are evaluated on every replayed network history. "
+         "residue: a ready circuit whose path breaks while handshake leftovers exist, nodes that stop being served, paths visiting a node "
+         "twice, and a datagram life-time bound D that is not a py-ipv8 setting; all hypotheses are evaluated on every replayed history. "
          "Hidden-service branches, DNS destinations and RustEndpoint not modelled. Model follows fixes 6c217ee, 88afc4f.",
     technique="Coq invariant proof (bounded liveness as a safety invariant) + AST-translated rules + lockstep correspondence under virtual time",
     design="5/C09")
